@@ -189,6 +189,7 @@ class Interp:
             "map": PyFunc(lambda f, *seqs: [self.call(f, list(xs), {}) for xs in zip(*[list(q) for q in seqs])], "map", True), "iter": PyFunc(iter, "iter"), "next": PyFunc(next, "next"),
             "print": PyFunc(lambda *a, **k: None, "print", True),
             "getattr": PyFunc(self._getattr, "getattr", True),
+            "setattr": PyFunc(self._setattr, "setattr", True),
             "True": True, "False": False, "None": None, "NotImplemented": NotImplemented,
             "Exception": ClassRef("Exception"), "ValueError": ClassRef("ValueError"), "TypeError": ClassRef("TypeError"),
             "NotImplementedError": ClassRef("NotImplementedError"), "ZeroDivisionError": ClassRef("ZeroDivisionError"),
@@ -255,6 +256,7 @@ class Interp:
                                             "ascii_uppercase": "ABCDEFGHIJKLMNOPQRSTUVWXYZ"}),
         }
         self.class_call_hook = None
+        self.class_attr_writes: List[Any] = []
         self.module_state: Dict[Any, Any] = {}   # (module, name) -> mutable module-level object, evaluated once
         self.overrides: Dict[str, Any] = {}      # 'module.function' -> value replacing the repository definition
         self.plain_classes = {"KingdonPrinter": "codegen.KingdonPrinter", "AdditionChains": "codegen.AdditionChains",
@@ -342,6 +344,15 @@ class Interp:
         if isinstance(v, (Unk, Closure, PyFunc, Bound, ClassRef)):
             return Unk("type")
         return ClassRef(type(v).__name__)
+
+    def _setattr(self, o, n, v):
+        if isinstance(o, Obj) and isinstance(n, str):
+            o.attrs[n] = v
+            return None
+        if isinstance(o, ClassRef) and isinstance(n, str):
+            self.class_attr_writes.append((o.name, n, v))     # a class attribute: recorded, instances do not see it
+            return None
+        raise NoValue(f"setattr on {o!r}")
 
     def _getattr(self, o, n, *default):
         if default:
@@ -855,6 +866,29 @@ class Interp:
         ga = self._class_def(v.kind, "__getattr__")
         if isinstance(ga, ast.FunctionDef):
             return self.call_function(ga, [v, name], {}, {}, module)
+        # a declared (annotated) field that the stand-in instance was not given: its declared default, else a gap of
+        # the stand-in - never the program's AttributeError
+        for st in self.repo.cls(self.instance_classes[v.kind]).body:
+            if isinstance(st, ast.AnnAssign) and isinstance(st.target, ast.Name) and st.target.id == name:
+                val = st.value
+                if isinstance(val, ast.Call):
+                    for kw in val.keywords:
+                        if kw.arg == "default_factory" and un(kw.value) in ("dict", "list", "set", "tuple"):
+                            v.attrs[name] = {"dict": dict, "list": list, "set": set, "tuple": tuple}[un(kw.value)]()
+                            return v.attrs[name]
+                        if kw.arg == "default":
+                            try:
+                                v.attrs[name] = ast.literal_eval(kw.value)
+                                return v.attrs[name]
+                            except Exception:
+                                pass
+                elif val is not None:
+                    try:
+                        v.attrs[name] = ast.literal_eval(val)
+                        return v.attrs[name]
+                    except Exception:
+                        pass
+                raise NoValue(f"the stand-in {v.kind} instance has no value for its declared field {name!r}")
         raise Raised("AttributeError", node)
 
     # ------------------------------------------------------------------ calls
@@ -1201,7 +1235,13 @@ class Interp:
             d = {}
             for k, v in zip(node.keys, node.values):
                 if k is None:
-                    return Unk("dict-unpack")
+                    m = self.eval(v, env)
+                    if isinstance(m, Obj) and isinstance(m.attrs.get("_store"), dict):
+                        m = m.attrs["_store"]
+                    if not isinstance(m, dict):
+                        return Unk("dict-unpack")
+                    d.update(m)
+                    continue
                 d[self.eval(k, env)] = self.eval(v, env)
             return d
         if isinstance(node, ast.Subscript):
